@@ -83,6 +83,12 @@ def s2(name):
         # hand-written dataclasses may use soft keywords and builtin names as field names
         return Catalogue("s2-names", [Shape("M", [_n(F("type", 1, "int32")), _n(F("match", 2, "string")), F("case", 3, "bool"), _n(F("id", 4, "int64")),
                                                   _n(F("list", 5, "uint32", "repeated")), _n(F("str", 6, "string", "optional"))])], E)  # fmt: skip
+    if name == "oneofs-nil":
+        # oneof groups with members of a message type without fields (assigning one is all that can be said about it)
+        return Catalogue("s2-oneofs-nil", [leaf, Shape("Nil", []), Shape("M", [
+            _n(F("p", 1, "int32")),
+            _n(F("a", 2, "int32", group="g")), F("n", 3, "message", group="g", msg="Nil"), _n(F("d", 4, "message", group="g", msg="Leaf")),
+            F("u", 5, "bool", group="h"), F("v", 6, "message", group="h", msg="Nil")])], E)  # fmt: skip
     if name == "emptymsg":
         # sub-messages of a type without fields (google.protobuf.Empty and the like): presence is all they carry
         return Catalogue("s2-emptymsg", [Shape("Nil", []), Shape("M", [
